@@ -53,7 +53,7 @@ func init() {
 		"(*sync.Mutex).Unlock":                         lockModel("0"),
 		"(*sync.RWMutex).Lock":                         lockModel("1"),
 		"(*sync.RWMutex).Unlock":                       lockModel("0"),
-		"(*sync.RWMutex).RLock":                        lockModel("1"),
+		"(*sync.RWMutex).RLock":                        lockModel("2"),
 		"(*sync.RWMutex).RUnlock":                      lockModel("0"),
 	} {
 		stdModels[k] = v
@@ -102,9 +102,9 @@ func lockKey(vc *VC, v Val) string {
 
 func lockModel(held string) stdModel {
 	return func(x *Exec, fr *frame, ins ssa.CallInstruction, c *ssa.CallCommon, args []Val, st *State, r string) (Val, string) {
-		used("sync.Mutex / RWMutex: Lock..Unlock delimit a critical section (ghost lock set); mutual exclusion itself is the library's guarantee")
+		used("sync.Mutex / RWMutex: Lock..Unlock delimit an exclusive critical section, RLock..RUnlock a shared one (ghost lock set: 1 exclusive, 2 shared); mutual exclusion itself is the library's guarantee")
 		st.Ghost[lockKey(x.vc, args[0])] = held
-		if held == "1" {
+		if held != "0" {
 			st.Ghost["heldlocks"] = x.vc.S.def("g_held", ic(add(ghost(st, "heldlocks"), "1"))).T
 		} else {
 			st.Ghost["heldlocks"] = x.vc.S.def("g_held", ic(sub(ghost(st, "heldlocks"), "1"))).T
